@@ -15,7 +15,6 @@ ChAB == {"A", "B"}
 ChABS == {"A", "B", "*"}
 
 CM2 == {{}, {"A"}}
-CM4 == SUBSET ChAB
 CMS == {{}, {"A"}, {"B", "*"}}
 RM2 == {{}, {"r1"}}
 RM1 == {{}}
@@ -40,11 +39,28 @@ GM5 == GM4 \cup { G({<<"u2", "A">>, <<"r2", "B">>, <<"r1", "A">>}, {<<"u1", "r2"
 (* split-load search: admin channel B, document grants A, role membership through the document *)
 GR2 == { G({<<"u1", "A">>}, {}),
          G({<<"r1", "A">>}, {<<"u1", "r1">>}) }
-(* simulation: richer tables over two users and two roles *)
-GM8 == GM4 \cup { G({}, {}),
-                  G({<<"u1", "A">>, <<"u2", "B">>}, {<<"u2", "r1">>}),
-                  G({<<"r2", "A">>, <<"r1", "A">>}, {<<"u1", "r2">>}),
-                  G({<<"u2", "A">>, <<"u2", "B">>, <<"r2", "B">>}, {<<"u1", "r1">>, <<"u1", "r2">>}) }
+(* Simulation: TLC picks uniformly among SUCCESSOR STATES, so with Next the actions with large menus (AdminPut, DocWrite,
+   DocConflict) swamp DocDelete / Load / Request.  SimNext draws the arguments with RandomElement: one successor per
+   action kind (document writes doubled), so that tombstones, winner flips, reloads and requests interleave. *)
+Pick(S) == {RandomElement(S)}       \* \E x \in Pick(S) binds one random element (evaluated once)
+Writable   == {x \in Docs \X Branches : CanWrite(x[1], x[2])}
+Deletable  == {x \in Docs \X Branches : docs[x[1]][x[2]].st = "live"}
+Forkable   == {d \in Docs : docs[d][1].st # "none" /\ docs[d][2].st = "none"}
+LivePrinc  == {p \in Princ : Live(p)}
+Reloadable == {p \in Princ : NeedsLoad(p)}
+SimDocWrite == Writable # {} /\ \E x \in Pick(Writable), g \in Pick(GrantMenu) : DocWrite(x[1], x[2], g)
+SimRequest  == \E u \in Pick(Users) : Request(u)
+SimNext ==
+  /\ Len(hist) < MaxSteps
+  /\ \/ \E p \in Pick(Users), cs \in Pick(ChanMenu), rs \in Pick(RoleMenu) : AdminPut(p, cs, rs)
+     \/ \E p \in Pick(Roles), cs \in Pick(ChanMenu) : AdminPut(p, cs, {})
+     \/ (LivePrinc # {} /\ \E p \in Pick(LivePrinc), pg \in Pick(BOOLEAN) : AdminDelete(p, p \in Users \/ pg))
+     \/ SimDocWrite \/ SimDocWrite
+     \/ (Deletable # {} /\ \E x \in Pick(Deletable) : DocDelete(x[1], x[2]))
+     \/ (Forkable # {} /\ \E d \in Pick(Forkable), hi \in Pick(BOOLEAN), g \in Pick(GrantMenu) : DocConflict(d, hi, g))
+     \/ (Reloadable # {} /\ \E p \in Pick(Reloadable) : Load(p))
+     \/ SimRequest
+SimSpec == Init /\ [][SimNext]_vars
 
 BehaviourExport == (Len(hist) = MaxSteps) => PrintT(<<"BEH", ToJson(hist)>>)
 (* -simulate evaluates invariants on every successor of the states of a trace: export only those that end in a request *)
